@@ -204,11 +204,10 @@ def r2(ctx):
                     if not okc:
                         ctx.violation("skip/enterable/%s" % rc[:50], ctx.where(VISIT_DIR, cj),
                                       "whether an entry can be entered is additionally conditioned on `%s`" % rc)
-    # pass_ignores is true when no ignore option is on
-    locs = Locals(hir)
-    pi = [x for x in walk(hir) if x["k"] == "Let" and x["pat"].get("name") == "pass_ignores"]
-    ok = len(pi) == 1 and pi[0]["init"]["k"] == "If" and render(peel_result(pi[0]["init"]["e"])) == "true" and \
-        all(w in render(pi[0]["init"]["c"]) for w in ("apply_gitignore", "apply_hgignore", "apply_dockerignore"))
+    # pass_ignores is true when no ignore option is on (verdict table read by the finite interpreter, shared with C20-R2)
+    import extra
+    res, _hg, err = extra.pass_ignores_table(ctx)
+    ok = res is not None and all(v is True for k, v in res[0].items() if not (k[0] or k[1] or k[2]))
     ctx.obligation(ok)
     if not ok:
         ctx.violation("skip/pass_ignores", ctx.where(VISIT_DIR), "without ignore options every entry must pass the ignore filter")
@@ -341,30 +340,51 @@ def r5(ctx):
             ctx.obligation(ok)
             if not ok:
                 ctx.violation("symlink-gate/%s" % c["m"], ctx.where(VISIT_DIR, c), "descending into an entry is not guarded by ok_to_visit_dir")
+    # ok_to_visit_dir, evaluated (finite interpreter) on (follow option, entry is a link, inode seen before): without
+    # `symlinks` exactly the links are refused; an inode seen before is refused; a new inode is recorded
+    import interp
     oh = ctx.anchor_hir(OK_TO_VISIT)
-    ms = [m for m in find_matches(oh) if "current_follow_symlinks" in render(m["scrut"])]
-    ok = False
-    if ms:
-        t = table_of(ms[0], lambda b: render(peel_result(b)))
-        ok = t.get("true") == "true" and t.get("false") == "!file_type.is_symlink()"
-    else:
-        # if-form
-        for x in walk_exprs(oh):
-            if x["k"] == "If" and "current_follow_symlinks" in render(x["c"]) and "e" in x:
-                t, e = render(peel_result(x["t"])), render(peel_result(x["e"]))
-                ok = (t == "true" and e == "!file_type.is_symlink()")
-    ctx.obligation(ok)
-    ctx.covered("descent sites guarded by ok_to_visit_dir; its symlink table", n + 2, distinct_keys=["dfs", "bfs", "table"], exhaustive=True)
-    if not ok:
-        ctx.violation("symlink-gate/table", ctx.where(OK_TO_VISIT), "without `symlinks`, ok_to_visit_dir must refuse exactly the symbolic links")
-    # visited inode set: refuse only what was inserted before
-    r = [x for x in walk_exprs(oh) if x["k"] == "If" and "visited_inodes.contains" in render(x["c"])]
-    ok = len(r) == 1 and render(peel_result(r[0]["t"])) in ("false", "return false") or \
-        (len(r) == 1 and any(y["k"] == "Ret" and render(y["e"]) == "false" for y in walk_exprs(r[0]["t"])))
-    ok = ok and any(c["k"] == "MCall" and c["m"] == "insert" and "visited_inodes" in render(c["recv"]) for c in walk_exprs(r[0].get("e", oh))) if r else False
-    ctx.obligation(ok)
-    if not ok:
-        ctx.violation("symlink-gate/visited", ctx.where(OK_TO_VISIT), "a directory may be refused only if its inode was recorded before, and a new inode must be recorded")
+    ps = ctx.prog.fns[OK_TO_VISIT]["params"]
+    tbl = {}
+    bad_tbl = bad_vis = None
+    unix = any(c["k"] == "MCall" and c["m"] == "ino" for c in walk_exprs(oh))
+    for follow in (False, True):
+        for is_link in (False, True):
+            for seen in ((False, True) if unix else (False,)):
+                visited = {7} if seen else set()
+
+                def call(node, recv, args, it, env, is_link=is_link):
+                    m = node.get("m")
+                    if m == "ino":
+                        return (7,)
+                    if m == "is_symlink":
+                        return (is_link,)
+                    return None
+                env = {}
+                for p_ in ps:
+                    if p_.get("k") == "Bind":
+                        env[p_["id"]] = {"current_follow_symlinks": follow, "visited_inodes": visited} if p_["name"] == "self" else interp.Opaque(p_["name"])
+                try:
+                    got = interp.Interp(call=call).run(oh, env)
+                except interp.Undecided as e:
+                    bad_tbl = "cannot evaluate ok_to_visit_dir: %s" % e
+                    break
+                want = (not seen) and (follow or not is_link)
+                n += 1
+                if got != want and bad_tbl is None:
+                    if seen or (unix and 7 not in visited):
+                        bad_vis = "follow=%s link=%s inode seen before=%s -> %s" % (follow, is_link, seen, got)
+                    else:
+                        bad_tbl = "follow=%s link=%s -> %s" % (follow, is_link, got)
+                if unix and not seen and 7 not in visited and bad_vis is None:
+                    bad_vis = "a new inode is not recorded (follow=%s link=%s)" % (follow, is_link)
+    ctx.obligation(bad_tbl is None)
+    ctx.covered("descent sites guarded by ok_to_visit_dir; ok_to_visit_dir evaluated on follow x link x seen-before", n + 2, distinct_keys=["dfs", "bfs", "table"], exhaustive=True)
+    if bad_tbl:
+        ctx.violation("symlink-gate/table", ctx.where(OK_TO_VISIT), "without `symlinks`, ok_to_visit_dir must refuse exactly the symbolic links (%s)" % bad_tbl)
+    ctx.obligation(bad_vis is None)
+    if bad_vis:
+        ctx.violation("symlink-gate/visited", ctx.where(OK_TO_VISIT), "a directory may be refused only if its inode was recorded before, and a new inode must be recorded (%s)" % bad_vis)
     # default root
     dh = ctx.anchor_hir("query::Root::default")
     lits = [x["v"] for x in walk_exprs(dh) if x["k"] == "Lit" and x["lk"] == "str"]
